@@ -10,6 +10,7 @@ import itertools
 import numpy as np
 
 from .. import em, games, pm, seams, simpool
+from .. import prelude
 from ..core import HarnessError, Sim
 
 LEVEL = "exploration"
@@ -108,6 +109,7 @@ def run(sim: Sim) -> None:
     ctx = {"n": n, "class": cls, "computer": comp_name, "gap": gap_name, "call": what, "start_extras": extras, "k": k}
     sim.config.update(ctx)
     configs = [(1 + sim.choose(16, "processes"), sim.pick(["fork", "fresh"], "image")) for _ in range(2 + sim.choose(2, "n-configs"))]
+    prelude.warm_process(sim)
     cache: dict = {}
     saved_time = gameplay.time
     gameplay.time = SimClock(sim)
